@@ -367,6 +367,39 @@ type ReqSpec struct {
 	Style int `json:"style,omitempty"`
 	// Rot rotates the attribute order.
 	Rot int `json:"rot,omitempty"`
+	// Opt is the optional request content, all of it chosen by whoever builds the request.
+	Opt ReqOptional `json:"optional"`
+}
+
+// ReqOptional is the optional content of an AuthnRequest (saml-core 3.4.1): the IdP
+// does not verify request signatures, so every value here is attacker-controlled.
+type ReqOptional struct {
+	SubjectNameID       *string `json:"subject_name_id,omitempty"` // <saml:Subject><saml:NameID>
+	SubjectFormat       string  `json:"subject_format,omitempty"`
+	SubjectConfirmation bool    `json:"subject_confirmation,omitempty"` // bearer SubjectConfirmation inside the requested Subject
+	Extensions          *string `json:"extensions,omitempty"`           // text of a foreign element inside samlp:Extensions
+	PolicyFormat        *string `json:"policy_format,omitempty"`        // NameIDPolicy
+	PolicySPNameQual    *string `json:"policy_sp_name_qualifier,omitempty"`
+	PolicyAllowCreate   *string `json:"policy_allow_create,omitempty"`
+	ConditionsAudience  *string `json:"conditions_audience,omitempty"` // saml:Conditions/AudienceRestriction/Audience
+	AuthnContextClass   *string `json:"authn_context_class,omitempty"` // samlp:RequestedAuthnContext
+	RequesterID         *string `json:"requester_id,omitempty"`        // samlp:Scoping/RequesterID
+	ProviderName        *string `json:"provider_name,omitempty"`
+	AttrSvcIndex        *string `json:"attribute_consuming_service_index,omitempty"`
+	ForceAuthn          *string `json:"force_authn,omitempty"`
+	IsPassive           *string `json:"is_passive,omitempty"`
+	Consent             *string `json:"consent,omitempty"`
+}
+
+// Strings lists every value of the optional content (for containment checks).
+func (o ReqOptional) Strings() []string {
+	var out []string
+	for _, p := range []*string{o.SubjectNameID, o.Extensions, o.PolicyFormat, o.PolicySPNameQual, o.ConditionsAudience, o.AuthnContextClass, o.RequesterID, o.ProviderName, o.Consent} {
+		if p != nil && *p != "" {
+			out = append(out, *p)
+		}
+	}
+	return out
 }
 
 // P returns a pointer to s.
@@ -432,6 +465,11 @@ func (s ReqSpec) XML() []byte {
 	add("AssertionConsumerServiceURL", s.ACSURL)
 	add("AssertionConsumerServiceIndex", s.ACSIndex)
 	add("ProtocolBinding", s.Binding)
+	add("ProviderName", s.Opt.ProviderName)
+	add("AttributeConsumingServiceIndex", s.Opt.AttrSvcIndex)
+	add("ForceAuthn", s.Opt.ForceAuthn)
+	add("IsPassive", s.Opt.IsPassive)
+	add("Consent", s.Opt.Consent)
 	if n := len(attrs); n > 0 && s.Rot > 0 {
 		r := s.Rot % n
 		attrs = append(attrs[r:], attrs[:r]...)
@@ -469,8 +507,69 @@ func (s ReqSpec) XML() []byte {
 			b.WriteString("<" + a + `:Issuer Format="urn:oasis:names:tc:SAML:2.0:nameid-format:entity">` + escText(*s.Issuer) + "</" + a + ":Issuer>")
 		}
 	}
-	if s.Style == 3 {
+	// open writes "<prefix:local" (or "<local xmlns=...") for an element of the protocol (proto) or assertion namespace
+	open := func(proto bool, local string) string {
+		pre, ns := a, xmlw.NSAssertion
+		if proto {
+			pre, ns = p, xmlw.NSProtocol
+		}
+		if pre == "" {
+			return "<" + local + ` xmlns="` + ns + `"`
+		}
+		return "<" + pre + ":" + local
+	}
+	end := func(proto bool, local string) string {
+		pre := a
+		if proto {
+			pre = p
+		}
+		return "</" + name(pre, local) + ">"
+	}
+	o := s.Opt
+	if o.Extensions != nil {
+		b.WriteString(open(true, "Extensions") + `><x:note xmlns:x="urn:example:extension" who="` + escAttr(*o.Extensions) + `">` + escText(*o.Extensions) + `</x:note>` + end(true, "Extensions"))
+	}
+	if o.SubjectNameID != nil {
+		b.WriteString(open(false, "Subject") + ">" + open(false, "NameID"))
+		if o.SubjectFormat != "" {
+			b.WriteString(` Format="` + escAttr(o.SubjectFormat) + `"`)
+		}
+		b.WriteString(">" + escText(*o.SubjectNameID) + end(false, "NameID"))
+		if o.SubjectConfirmation {
+			b.WriteString(open(false, "SubjectConfirmation") + ` Method="urn:oasis:names:tc:SAML:2.0:cm:bearer">` + end(false, "SubjectConfirmation"))
+		}
+		b.WriteString(end(false, "Subject"))
+	}
+	if o.PolicyFormat != nil || o.PolicySPNameQual != nil || o.PolicyAllowCreate != nil {
+		b.WriteString(open(true, "NameIDPolicy"))
+		for _, x := range []kv{{"Format", ""}, {"SPNameQualifier", ""}, {"AllowCreate", ""}} {
+			var v *string
+			switch x.k {
+			case "Format":
+				v = o.PolicyFormat
+			case "SPNameQualifier":
+				v = o.PolicySPNameQual
+			default:
+				v = o.PolicyAllowCreate
+			}
+			if v != nil {
+				b.WriteString(" " + x.k + `="` + escAttr(*v) + `"`)
+			}
+		}
+		b.WriteString("/>")
+	} else if s.Style == 3 {
 		b.WriteString("<" + name(p, "NameIDPolicy") + ` AllowCreate="true" Format="urn:oasis:names:tc:SAML:2.0:nameid-format:transient"/>`)
+	}
+	if o.ConditionsAudience != nil {
+		b.WriteString(open(false, "Conditions") + ">" + open(false, "AudienceRestriction") + ">" + open(false, "Audience") + ">" + escText(*o.ConditionsAudience) +
+			end(false, "Audience") + end(false, "AudienceRestriction") + end(false, "Conditions"))
+	}
+	if o.AuthnContextClass != nil {
+		b.WriteString(open(true, "RequestedAuthnContext") + ` Comparison="exact">` + open(false, "AuthnContextClassRef") + ">" + escText(*o.AuthnContextClass) +
+			end(false, "AuthnContextClassRef") + end(true, "RequestedAuthnContext"))
+	}
+	if o.RequesterID != nil {
+		b.WriteString(open(true, "Scoping") + ` ProxyCount="1">` + open(true, "RequesterID") + ">" + escText(*o.RequesterID) + end(true, "RequesterID") + end(true, "Scoping"))
 	}
 	b.WriteString("</" + name(p, "AuthnRequest") + ">")
 	return []byte(b.String())
